@@ -32,6 +32,7 @@ ARCHS = {
     "convavg": lambda A, L: [("conv", A, 2, 2, 1, 0, 1), ("act", "SiLU"), ("avgpool", 2), ("flatten",), ("linear", 2 * ((L - 1) // 2), 2)],
     "convmax": lambda A, L: [("conv", A, 1, 2, 1, 0, 1), ("act", "ReLU"), ("maxpool", 2), ("flatten",), ("linear", (L - 1) // 2, 2)],
     "affine": lambda A, L: [("conv", A, 2, 2, 1, 0, 1), ("flatten",), ("linear", 2 * (L - 1), 2)],
+    "convmaxpad": lambda A, L: [("conv", A, 1, 2, 1, 0, 1), ("act", "ReLU"), ("maxpool", 3, 3, 1), ("flatten",), ("linear", (L - 1 + 2 - 3) // 3 + 1, 2)],
 }
 for _a in nn.ACT_NAMES:
     ARCHS["tiny:" + _a] = (lambda A, L, _a=_a: [("flatten",), ("linear", A * L, 1), ("act", _a), ("linear", 1, 2)])
@@ -67,7 +68,7 @@ def build(arch, A, L, seed=1, symbolic_weights=False, NN=nn):
         elif sp[0] == "avgpool":
             layers.append(NN.AvgPool1d(sp[1]))
         elif sp[0] == "maxpool":
-            layers.append(NN.MaxPool1d(sp[1]))
+            layers.append(NN.MaxPool1d(sp[1], *sp[2:]))
     return NN.Sequential(*layers)
 
 
@@ -226,7 +227,7 @@ def real_model(arch, A, L, seed=1, act_override=None):
         elif sp[0] == "avgpool":
             layers.append(torch.nn.AvgPool1d(sp[1]))
         elif sp[0] == "maxpool":
-            layers.append(torch.nn.MaxPool1d(sp[1]))
+            layers.append(torch.nn.MaxPool1d(sp[1], *sp[2:]))
     return torch.nn.Sequential(*layers)
 
 
